@@ -33,6 +33,9 @@
    simulator run from s0 - s0 included - satisfies the invariant, unless a strictly earlier state of the run is a goal or
    prune state (where the exploration legitimately stops).  C04_safe_plain: without goal / prune predicates the
    invariant holds at EVERY state the simulation passes through.  C04_breakable_never_ok: the contrapositive.
+   C04_safe3 / C04_safe3_plain / C04_breakable_never_ok3 (Proofs/HandoffSafe3.v): the same with corruption allowed under
+   CorrSide (C04_safe is re-derived from C04_safe3); C04_example_safe3: an instance with corruption rate 1 in which the
+   checker's run returns Ok after exploring the corrupted delivery.
    C04_safe_once / C04_safe_steps: static set_timer_once form, System::steps(k) form.  C04_example_safe: an instance
    in which the checker's run really returns Ok.
    C04_stage1 is the fault-free special case (all rates 0, nothing cut): exactly one checker step per simulator step.
@@ -44,8 +47,13 @@
 From ASV Require Import Base.Util Base.Msg Base.Log Model.Sim Model.McSys Spec.TimeLaws
      Proofs.TimerOrder Proofs.SnapshotP Proofs.FateAgree Proofs.SimTimeP
      Proofs.HandoffSimBase Proofs.HandoffSim Proofs.HandoffSimEx Proofs.HandoffSim2Base Proofs.HandoffSim2 Proofs.HandoffSim2Ex
-     Proofs.HandoffSafe Proofs.HandoffSafeEx Proofs.HandoffSim3Base Proofs.HandoffSim3 Proofs.HandoffSim3Ex.
+     Proofs.HandoffSafe Proofs.HandoffSafeEx Proofs.HandoffSim3Base Proofs.HandoffSim3 Proofs.HandoffSim3Ex Proofs.HandoffSafe3 Proofs.HandoffSafe3Ex.
 
+Definition C04_safe3 := @HandoffSafe3.C04_safe3.
+Definition C04_safe3_plain := @HandoffSafe3.C04_safe3_plain.
+Definition C04_breakable_never_ok3 := @HandoffSafe3.C04_breakable_never_ok3.
+Definition C04_safe_from_safe3 := @HandoffSafe3.C04_safe_from_safe3.
+Definition C04_example_safe3 := @HandoffSafe3Ex.example_safe3.
 Definition C04_safe := @HandoffSafe.C04_safe.
 Definition C04_safe_plain := @HandoffSafe.C04_safe_plain.
 Definition C04_breakable_never_ok := @HandoffSafe.C04_breakable_never_ok.
@@ -79,6 +87,11 @@ Definition C04_snapshot_timer_not_stronger := @snapshot_timer_remaining.
 Definition C04_fate_permitted := @sim_fate_permitted.
 Definition C04_queue_minimum := @q_next_some.
 
+Print Assumptions C04_safe3.
+Print Assumptions C04_safe3_plain.
+Print Assumptions C04_breakable_never_ok3.
+Print Assumptions C04_safe_from_safe3.
+Print Assumptions C04_example_safe3.
 Print Assumptions C04_safe.
 Print Assumptions C04_safe_plain.
 Print Assumptions C04_breakable_never_ok.
